@@ -11,6 +11,8 @@
 
 #include "recipes.hpp"
 
+#include "celma/prog_args/groups.hpp"
+
 namespace recipes {
 
 struct EvalCfg
@@ -22,6 +24,9 @@ struct EvalCfg
    bool                        named_env = false;    // checkEnvVarArgs( env_name)
    std::string                 env_name;
    int                         repeat = 1;           // evaluate the same handler n times
+   /// group mode: two handlers obtained from the Groups singleton (this recipe
+   /// and recipe2), evaluated through Groups::evalArguments()
+   const Json*                 recipe2 = nullptr;
 };
 
 struct EvalOut
@@ -89,6 +94,40 @@ inline EvalOut evaluate( const EvalCfg& cfg)
    Built               b;
    ArgvBlock           args( cfg.argv);
    bool                setup_done = false;
+   if (cfg.recipe2 != nullptr)
+   {
+      namespace pa = celma::prog_args;
+      Dest  d2;
+      pa::Groups::reset();
+      try
+      {
+         auto &  grp = pa::Groups::instance( os, es, cfg.flags | Handler::hfUsageCont);
+         auto    h1 = grp.getArgHandler( "first", cfg.flags & (Handler::hfHelpShort | Handler::hfHelpLong));
+         auto    h2 = grp.getArgHandler( "second");
+         if (cfg.recipe != nullptr) build( *h1, nullptr, d, *cfg.recipe, b);
+         build( *h2, nullptr, d2, *cfg.recipe2, b);
+         setup_done = true;
+         for (int r = 0; r < cfg.repeat; ++r)
+            grp.evalArguments( args.argc(), args.argv());
+      } catch (const std::exception& e)
+      {
+         out.threw = true;
+         out.ex_type = demangle( typeid( e).name());
+         out.what = e.what();
+      } catch (...)
+      {
+         out.threw = true;
+         out.std_exception = false;
+         out.ex_type = "not derived from std::exception";
+      }
+      pa::Groups::reset();
+      out.in_setup = out.threw && !setup_done;
+      out.snapshot = d.snapshot() + " || " + d2.snapshot();
+      out.out = os.str();
+      out.err = es.str();
+      out.setup_refusals = b.setup_errors.size();
+      return out;
+   }
    try
    {
       Handler                    h( os, es, cfg.flags);
